@@ -238,8 +238,35 @@ def check_C07(ctx):
                                    "decided against Budget!Usage computed by TLC from the raw parser events"])
 
 
+# ------------------------------------------------------------------------------------------------
+# C11
+# ------------------------------------------------------------------------------------------------
+def check_C11(ctx):
+    q = ctx.quick()
+    kinds = ["V", "W", "D", "E", "N", "TE", "TL", "A", "AN", "S", "U"]
+    cases = ctx.path("cases.ndjson")
+    run_mc(ctx, "MC_Stream", dict(MaxDocs=3 if q else 4, KindSet=kinds, SetsFinishedOnSyntax=True),
+           ["InvIter", "InvIterExact", "InvIterPrefix", "InvBatch", "InvTerminates", "EmitCase"], properties=["Terminates"],
+           workers=4, timeout=3000, cases_out=cases, label="MC_Stream", spec="FairSpec")
+    ctx.exhaustive = True
+    recs = ctx.path("recs.ndjson")
+    st = run_vh(ctx, ["c11", "--cases", cases, "--out", recs, "--random", 500 if q else 20000, "--seed", ctx.seed,
+                      "--variants", 4 if q else 12])
+    ctx.evaluations += st["records"]
+    ctx.distinct_nontrivial += st["nontrivial"]
+    ctx.samples += st["samples"]
+    mism = run_tv(ctx, "TV_Stream", recs, timeout=3000)
+    classify_mismatches(ctx, mism, recs, {}, "batch / iterator / single-document results differ from Stream!Batch / IterAdmissible / Single")
+    return finish(ctx, "model_checking",
+                  "cases: every sequence of <= 3 (quick) / 4 (thorough) document kinds over 11 kinds enumerated by TLC, each rendered "
+                  "in several marker/comment variants and run through from_multiple, from_slice_multiple, read, from_str, "
+                  "from_reader, from_slice; plus random streams of 4-11 documents; non-trivial = distinct texts with >= 2 documents",
+                  ASSUME_COMMON + ["document kinds are rendered from a fixed table of texts; the element type is an untagged enum of integers and small maps"])
+
+
 CHECKS = {
     "C02": check_C02,
+    "C11": check_C11,
     "C07": check_C07,
     "C03": check_C03,
     "C04": check_C04,
